@@ -310,6 +310,17 @@ class G:
             L.append([self.ident("q"), ":", self.kw("out"), self.ident("std_logic")])
             L.append([")", ";"])
             L.append([self.kw("end"), self.kw("component")] + ([self.ident("sub_comp")] if self.opt() else []) + [";"])
+        elif k == 10 and self.opt(0.35):
+            # operator overload: the designator is a string literal (operator symbol), any letter case
+            n = r.choice(['"and"', '"AND"', '"+"', '"Mod"', '"="', '"Xor"', '"NOT"'])
+            unary = n.lower() == '"not"'
+            args = [self.ident("l"), ":", self.ident("t_state")] + ([] if unary else [";", self.ident("r"), ":", self.ident("t_state")])
+            L.append([self.kw("function"), n, "("] + args + [")", self.kw("return"), self.ident("t_state"), self.kw("is")])
+            L.append([self.kw("begin")])
+            L.append([self.kw("return"), self.ident("l"), ";"])
+            L.append([self.kw("end")] + ([self.kw("function")] if self.opt() else []) + ([n] if self.opt() else []) + [";"])
+            if self.opt(0.4):
+                L.append([self.kw("alias"), r.choice(['"NAND"', '"nor"', '"-"']), self.kw("is"), n, "[", self.ident("t_state")] + ([] if unary else [",", self.ident("t_state")]) + [self.kw("return"), self.ident("t_state"), "]", ";"])
         elif k == 10:
             n = self.ident("f_calc")
             L.append([self.kw("function"), n, "(", self.ident("x"), ":"] + ([self.kw("in")] if self.opt(0.3) else []) + [self.ident("integer"), ")", self.kw("return"), self.ident("integer"), self.kw("is")])
